@@ -218,15 +218,6 @@ theorem shortCtx_cons (vals : List F) (n : Nat) (acc : Fv F) (fr : Fr) (rest : C
     shortCtx vals n acc (fr :: rest) = shortCtx vals n (shortStep vals n acc fr) rest := by
   cases fr <;> rfl
 
-theorem ctxPar_cons (fr : Fr) (rest : Ctx) : ctxPar (fr :: rest) = (fr.idx : Int) := by cases fr <;> rfl
-
-theorem CtxLinked.step {nodes : List Int} {n : Nat} {c : Int} {fr : Fr} {rest : Ctx}
-    (h : CtxLinked nodes n c (fr :: rest)) :
-    fr.idx + 1 < n ∧ nAt nodes fr.idx 3 = ctxPar rest ∧ CtxLinked nodes n (fr.idx : Int) rest := by
-  cases fr with
-  | L p pr => exact ⟨h.1, h.2.2.2.2.1, h.2.2.2.2.2.2⟩
-  | R pl p => exact ⟨h.1, h.2.2.2.2.1, h.2.2.2.2.2.2⟩
-
 theorem p1Loop_spec (n : Nat) : ∀ (ctx : Ctx) (i : Nat) (fuel : Nat) (s : State F), VS s n → s.ctl = .run →
     CtxLinked (s.ia "tree_nodes") n (i : Int) ctx → nAt (s.ia "tree_nodes") i 3 = ctxPar ctx → i + 1 < n →
     s.ienv q_cur_node = i → ctx.length < fuel →
